@@ -573,6 +573,14 @@ def guards(fn, defs=None):
             d = single_def(defs, g.root)
             if d and d[2] == 'call' and re.search(r'(Mutex|RwLock)<', fn.locals[g.root]):
                 g.lock_fields = [d[3].resolved + '.<returned lock>']
+        if True:
+            # the guard is the return value of a workspace function that acquires the lock and returns with it held
+            # (`let _g = lock_chunk(&key)`): name the lock after that wrapper
+            for (bb, idx, k, p) in defs.defs.get(l, []):
+                if k == 'call' and re.match(r'(tensor_|relational_engine|graph_engine|vector_engine|query_router|neumann_)\w*::', p.resolved) \
+                        and not re.search(r'::(lock|read|write|try_lock|try_read|try_write|upgradable_read)$', p.resolved):
+                    g.lock_fields = [p.resolved + '.<returned guard>']
+                    break
         g.kills = []
         for i, b in enumerate(fn.bbs):
             if b['cleanup']:
